@@ -1,13 +1,14 @@
 import AcraModel.Envelope.Poison
 import AcraModel.Envelope.PoisonLemmas
 import AcraModel.Generated.Wiring
+import AcraModel.Props.C01
 /-!
 # C15 — poison records always raise the alarm, ordinary data never does
 
 Property theorems only. Model: `AcraModel/Envelope/Poison.lean` (on top of the detector model).
 -/
 namespace AcraModel.Props.C15
-open AcraModel AcraModel.Envelope Generated
+open AcraModel AcraModel.Envelope Generated AcraModel.Props.C01
 
 /-- In both SQL proxies the poison detector is registered on the envelope detector before the
 decrypt handler (and after the compatibility wrapper, which only records hits): a value is
@@ -342,5 +343,133 @@ theorem poison_checked_before_replace (c : CryptoOps) (cfg : PoisonCfg) (kv : Ke
   · intro cont b
     rw [poisonCallback_out]
     split <;> exact fun h => nomatch h
+
+/-! ## 6. non-vacuity: every hypothesis bundle above is met by a concrete instance -/
+
+/-- 2/3 (AcraBlock poison record, stand-in back end, ROTATED poison key, embedded, failing callbacks):
+the record was made with poison key `[1,2,3]`; the detector's key history is `[[4,5],[1,2,3],[1,2,9]]`;
+it sits between `ab` and `c` in a column value. The alarm is raised, the value is not delivered, and
+(`no_false_alarm`) the alarm is explained by bytes that open under the poison keys. -/
+example :
+    let pkW : KeyView := ⟨none, none, some [1,2,3], none⟩
+    let pk : KeyView := ⟨none, none, some [4,5], some ([[4,5]] ++ [1,2,3] :: [[1,2,9]])⟩
+    let cfg : PoisonCfg := ⟨true, true, pk⟩
+    let kv : KeyView := ⟨none, none, some [8], some [[8]]⟩
+    ∃ P, createPoison toyOps pkW .block 3 (List.replicate 59 5) = .ok P ∧
+      1 ≤ (proxyOnColumn toyOps cfg kv ([97,98] ++ P ++ [99])).2 ∧
+      (proxyOnColumn toyOps cfg kv ([97,98] ++ P ++ [99])).1 = .fatal ∧
+      ∃ s, SeenByDetector toyOps cfg kv ([97,98] ++ P ++ [99]) s ∧ isPoison toyOps cfg.pk s = true := by
+  intro pkW pk cfg kv
+  have hs := toy_sealLaws
+  have hsl := toy_sealLen
+  have hkid := keyId_length toyOps toy_hashLen [1,2,3] []
+  obtain ⟨b, hb⟩ := block_create_total toyOps hs [1,2,3] [] ((List.replicate 59 5).take 3) ((List.replicate 59 5).drop 3)
+    (by decide) (by decide) (by decide) (by decide)
+  obtain ⟨hbl, _, hek⟩ := block_sizes toyOps hs hsl _ _ _ _ b hkid hb
+  have hbne : b ≠ [] := by intro h; rw [h] at hbl; simp at hbl
+  have hP : createPoison toyOps pkW .block 3 (List.replicate 59 5) = .ok (serBytes b idBlock) := by
+    rw [createPoison_block_eq toyOps pkW [1,2,3] 3 _ b rfl hb, c01_serialize_eq _ hbne]
+  have hH : RoundTripHyps toyOps .block pkW cfg.pk ((List.replicate 59 5).take 3) ((List.replicate 59 5).drop 3)
+      (serBytes b idBlock) := by
+    refine ⟨hs, [1,2,3], [[4,5]], [[1,2,9]], hkid, rfl, rfl, ?_, ?_, ?_⟩
+    · intro k' hk' encKey _ hid
+      simp only [List.mem_singleton] at hk'
+      subst hk'
+      exact absurd hid (by decide)
+    · intro ek h; rw [hek ek h]; decide
+    · rw [c01_serBytes_length, hbl]; decide
+  obtain ⟨h1, h2⟩ := poison_detected_in_text toyOps cfg kv pkW .block 3 _ _ [97,98] [99] rfl hP hH (by decide)
+  exact ⟨_, hP, h1, h2 rfl, (no_false_alarm toyOps cfg kv _ h1).2⟩
+
+/-- 2 (AcraStruct poison record, executable stand-in back end, AcraTranslator): the record alone is sent
+to `DecryptSym` by a client that has no keys – error for the client, alarm raised; in the SQL proxy
+with working callbacks the alarm is raised as well. -/
+example :
+    let priv := shimOps.privOfSeed (List.replicate 32 1)
+    let other := shimOps.privOfSeed (List.replicate 32 2)
+    let pkW : KeyView := ⟨some (shimOps.pubOf priv), none, none, none⟩
+    let pk : KeyView := ⟨none, some ([] ++ priv :: [other]), none, none⟩
+    let cfg : PoisonCfg := ⟨true, false, pk⟩
+    let kv : KeyView := ⟨none, none, none, none⟩
+    ∃ P, createPoison shimOps pkW .struct 4 (List.replicate 92 7) = .ok P ∧
+      (translatorDecrypt shimOps cfg kv .block P).1 = .err ∧ 1 ≤ (translatorDecrypt shimOps cfg kv .block P).2 ∧
+      1 ≤ (proxyOnColumn shimOps cfg kv P).2 := by
+  intro priv other pkW pk cfg kv
+  have hpriv : shimOps.validPriv priv = true := shim_keygenLaws.valid_seed _ (by decide)
+  obtain ⟨b, hb⟩ := struct_create_total shimOps shim_sealLaws shim_msgLaws shim_keygenLaws priv []
+    ((List.replicate 92 7).take 4) ((List.replicate 92 7).drop 4) hpriv (by decide) (by decide) (by decide)
+  have hbne : b ≠ [] := by
+    obtain ⟨encKey, encData, _, _, hss⟩ := c01_createStruct_ok hb
+    rw [hss]
+    intro h
+    have := congrArg List.length h
+    simp [c01_structTag_length] at this
+  have hP : createPoison shimOps pkW .struct 4 (List.replicate 92 7) = .ok (serBytes b idStruct) := by
+    rw [createPoison_struct_eq shimOps pkW _ 4 _ b rfl hb, c01_serialize_eq _ hbne]
+  have hH : RoundTripHyps shimOps .struct pkW cfg.pk ((List.replicate 92 7).take 4) ((List.replicate 92 7).drop 4)
+      (serBytes b idStruct) :=
+    ⟨shim_sealLaws, shim_sealLen, shim_msgLaws, shim_msgLen, shim_keygenLaws, priv, [], [other], hpriv, rfl, rfl, by simp⟩
+  obtain ⟨h1, h2⟩ := poison_detected_translator_alone shimOps cfg kv pkW .struct .block 4 _ _ rfl hP hH
+    (fun m => decryptWithHandler_no_keys shimOps kv rfl rfl _ _ m)
+  exact ⟨_, hP, h1, h2, (poison_detected_alone shimOps cfg kv pkW .struct 4 _ _ rfl hP hH).1⟩
+
+/-- 3 (contrapositives): plain text; a value nobody can open although it carries all tags; and under key
+commitment (`boxOps`) an AcraBlock-protected value of a client whose key `[1,2,3]` is not among the
+poison keys `[[9,9],[1,2,4]]` (the second has the same 2-byte key id) – all with callbacks configured. -/
+example :
+    let pk : KeyView := ⟨none, none, some [9,9], some [[9,9],[1,2,4]]⟩
+    let cfg : PoisonCfg := ⟨true, false, pk⟩
+    let kvW : KeyView := ⟨none, none, some [1,2,3], none⟩
+    let kvR : KeyView := ⟨none, none, some [1,2,3], some ([] ++ [1,2,3] :: [])⟩
+    (proxyOnColumn boxOps cfg kvR [104,105,32,116,104,101,114,101]).2 = 0 ∧
+    (proxyOnColumn boxOps ⟨true, false, ⟨none, none, none, none⟩⟩ ⟨none, none, none, none⟩
+      [37,37,37,34,34,34,34,34,34,34,34,1,2,3]).2 = 0 ∧
+    ∃ p, protect boxOps kvW .block [9,9] (List.replicate 56 5) = .ok p ∧
+      proxyOnColumn boxOps cfg kvR ([97] ++ p ++ [98]) = (.ok ([97] ++ [9,9] ++ [98]) true, 0) := by
+  intro pk cfg kvW kvR
+  refine ⟨plain_data_no_alarm boxOps cfg kvR _ (by decide) (by decide) (by decide), ?_, ?_⟩
+  · exact damaged_no_alarm boxOps _ _ _ (fun i _ _ => isPoison_no_keys boxOps _ rfl rfl _)
+      (fun x id _ _ => isPoison_no_keys boxOps _ rfl rfl _) (fun x _ _ m => process_no_keys boxOps _ rfl rfl _ m)
+  · have hs := Box.sealLaws
+    have hnm : matchKind .block [9,9] = false := by decide
+    have hnr : registryMatch [9,9] = false := by decide
+    have hkid : (keyId boxOps [1,2,3] []).length = 2 := by decide
+    have e1 : boxOps.enc ((List.replicate 56 5).take 32) [] [9,9] (((List.replicate 56 (5:UInt8)).drop 32).take 12) =
+        some (Box.esc (List.replicate 32 5) ++ (Box.esc [] ++ (Box.esc (List.replicate 12 5) ++ [9,9]))) := by decide
+    have e2 : boxOps.enc [1,2,3] [] ((List.replicate 56 5).take 32) (((List.replicate 56 (5:UInt8)).drop 44).take 12) =
+        some (Box.esc [1,2,3] ++ (Box.esc [] ++ (Box.esc (List.replicate 12 5) ++ List.replicate 32 5))) := by decide
+    have hek : ∀ encKey, boxOps.enc [1,2,3] [] ((List.replicate 56 5).take 32) (((List.replicate 56 (5:UInt8)).drop 44).take 12) = some encKey →
+        encKey.length < 65536 := by
+      intro encKey h; rw [e2] at h; cases h; decide
+    obtain ⟨p, hp⟩ := protect_block_total boxOps hs kvW [1,2,3] [9,9] (List.replicate 56 5) rfl (by decide)
+      (by decide) (by decide) (by decide)
+    have hpl : 2 < p.length ∧ p.length < 2^63 := by
+      obtain ⟨e, he, _, rfl⟩ := c01_protect_ok hp hnm hnr
+      obtain ⟨key', hk', hcb⟩ := c01_encryptKind_block he hnm
+      cases hk'
+      obtain ⟨encData, encKey, h1, h2, rfl⟩ := c01_createBlock_ok hcb
+      rw [e1] at h1; rw [e2] at h2
+      cases h1; cases h2
+      rw [c01_serBytes_length, c01_buildBlock_length _ _ _ hkid]
+      decide
+    refine ⟨p, hp, client_block_no_alarm boxOps Box.sealCommit cfg kvW kvR [9,9] _ p [97] [98]
+      ⟨hs, [1,2,3], [], [], hkid, rfl, rfl, by simp, hek, hpl.2⟩ hnm hnr hp ?_ ?_ (by decide) (by decide)⟩
+    · intro h
+      have := congrArg List.length h
+      rw [List.length_append] at this
+      simp at this
+      omega
+    · intro key ks hk hks
+      cases hk; cases hks
+      decide
+
+/-- 4/5: the hypotheses are plain configuration facts -/
+example : (proxyOnColumn shimOps ⟨false, false, ⟨none, none, some [1], some [[1]]⟩⟩ ⟨none, none, none, none⟩ [37,37,37,1]).2 = 0 ∧
+    (proxyOnColumn shimOps ⟨true, true, ⟨none, none, none, none⟩⟩ ⟨none, none, none, none⟩ [37,37,37,1]).2 = 0 :=
+  ⟨(no_callbacks_no_alarm shimOps _ _ .block _ rfl).1, (missing_poison_keys_no_alarm shimOps _ _ .block _ rfl rfl).1⟩
+
+example : proxyCallbacks boxOps ⟨true, false, ⟨none, none, some [1], some [[1]]⟩⟩ ⟨none, none, none, none⟩ =
+    [poisonCallback boxOps ⟨true, false, ⟨none, none, some [1], some [[1]]⟩⟩, plainT (decryptCallback boxOps ⟨none, none, none, none⟩)] :=
+  (poison_checked_before_replace boxOps _ _ rfl).1
 
 end AcraModel.Props.C15
